@@ -9,7 +9,9 @@
 (*   cores[c]  one record per core (writer or replica):                    *)
 (*             key, len (how much of truth[key] it has verified),          *)
 (*             held (normalised list of half-open index intervals),        *)
-(*             writable, subs (subscribers of the live instance)           *)
+(*             writable, subs (subscribers of the live instance),          *)
+(*             sealed (a make_read_only call has returned, or the core     *)
+(*             never had a secret key: no store may hold key material)     *)
 (*                                                                         *)
 (* A core's content is by construction a prefix of its key's signed log;   *)
 (* that is C01's list model and C04's "nothing the writer did not sign".   *)
@@ -104,7 +106,7 @@ RPrefix(runs, n) ==
 ---------------------------------------------------------------------------
 (* Cores *)
 
-NoCore == [key |-> "", len |-> 0, held |-> <<>>, writable |-> FALSE, subs |-> 0]
+NoCore == [key |-> "", len |-> 0, held |-> <<>>, writable |-> FALSE, subs |-> 0, sealed |-> FALSE]
 
 Log(c) == truth[cores[c].key]
 CLen(c) == cores[c].len
@@ -149,8 +151,11 @@ Outcome(c, op) ==
          ELSE Same([t |-> "none"], <<EvGet(op.i, op.bi)>>)
     [] op.o = "mro" ->
          IF me.writable
-         THEN Res(truth, [cores EXCEPT ![c].writable = FALSE], [t |-> "ok", changed |-> TRUE], <<>>)
+         THEN Res(truth, [cores EXCEPT ![c].writable = FALSE, ![c].sealed = TRUE],
+                  [t |-> "ok", changed |-> TRUE], <<>>)
          ELSE Same([t |-> "ok", changed |-> FALSE], <<>>)
+    \* C12: open mode together with a key pair is refused before any storage operation
+    [] op.o = "openkp" -> Same([t |-> "badarg", ops |-> 0], <<>>)
     [] op.o = "reopen" ->
          Res(truth, [cores EXCEPT ![c].subs = 0], [t |-> "ok"], <<>>)
     [] op.o = "sub" ->
@@ -174,7 +179,8 @@ Dropped(cs, c) == [cs EXCEPT ![c].subs = 0]
 (* Actions *)
 
 Create(c, k, w) ==
-  /\ cores' = (c :> [key |-> k, len |-> 0, held |-> <<>>, writable |-> w, subs |-> 0]) @@ cores
+  /\ cores' = (c :> [key |-> k, len |-> 0, held |-> <<>>, writable |-> w, subs |-> 0,
+                     sealed |-> ~w]) @@ cores
   /\ truth' = IF w \/ k \notin DOMAIN truth THEN (k :> <<>>) @@ truth ELSE truth
 
 \* a call that returns normally
@@ -183,7 +189,11 @@ Do(c, op) == LET r == Outcome(c, op) IN truth' = r.truth /\ cores' = r.cores
 \* a call interrupted by a crash or a storage error (C02, C07, C10): before-or-after, instance lost
 Interrupted(c, op) ==
   \/ /\ truth' = truth /\ cores' = Dropped(cores, c)
-  \/ LET r == Outcome(c, op) IN truth' = r.truth /\ cores' = Dropped(r.cores, c)
+  \/ LET r == Outcome(c, op) IN
+       /\ truth' = r.truth
+       \* C12 promises a store free of the secret key only once make_read_only has *returned*:
+       \* an interrupted call may have taken effect without having wiped the older header slot
+       /\ cores' = [Dropped(r.cores, c) EXCEPT ![c].sealed = cores[c].sealed]
 
 ---------------------------------------------------------------------------
 (* Invariants of the model itself *)
